@@ -5,6 +5,7 @@ package main
 import (
 	"go/constant"
 	"go/types"
+	"strconv"
 	"strings"
 
 	"golang.org/x/tools/go/ssa"
@@ -17,7 +18,7 @@ func init() {
 const kvPath = modPath + "/storage/kv"
 
 func checkC13(w *World, r *Report) {
-	r.Decides = "C13 is decided in its structural part only: (a) in the metadata state machine's Update the map writes are reachable only over 'key not stored' or 'stored.Ver == supplied.Ver'; the mismatch edge reports ResultCodeVersionMismatch with the marshalled stored pair and writes nothing; (b) the version given to a stored pair is the log entry's index; (c) the client maps the mismatch code to an error in Set and Delete and returns proposal errors; (d) no clock/random/environment value or goroutine reaches the map writes or results; (e) snapshot symmetry: MarshalJSON and UnmarshalJSON use the same map field, recover decodes into the store prepare marshals, and recovery replaces the map; (f) every MapStore method that touches the map holds the mutex until it returns (write lock for writers)."
+	r.Decides = "C13 is decided in its structural part only: (a) in the metadata state machine's Update the map writes are reachable only over 'key not stored' or 'stored.Ver == supplied.Ver'; the mismatch edge reports ResultCodeVersionMismatch with the marshalled stored pair and writes nothing; (b) the version given to a stored pair is the log entry's index; (c) the client maps the mismatch code to an error in Set and Delete and returns proposal errors; (d) no clock/random/environment value or goroutine reaches the map writes or results; (e) snapshot symmetry: MarshalJSON and UnmarshalJSON use the same map field, recover decodes into the store prepare marshals, and recovery replaces the map; (f) every MapStore method that touches the map holds the mutex until it returns (write lock for writers); (g) no lookup method writes the map, and the two directory listings decide membership by the same component-wise prefix test (sibling agreement)."
 	r.NotDecided = []string{"glob semantics of path.Match and the directory-listing helpers", "JSON round trip of arbitrary strings", "that log indices are unique and increasing (Raft)"}
 	r.Assume = []string{"dragonboat applies entries in index order on every replica"}
 	sp := w.SSAPkg("storage/kv")
@@ -48,6 +49,7 @@ func checkC13(w *World, r *Report) {
 	c13Determinism(w, r, up)
 	c13Snapshot(w, r, meta)
 	c13Locks(w, r)
+	c13Listings(w, r)
 }
 
 func c13Gate(w *World, r *Report, up *ssa.Function) {
@@ -57,13 +59,34 @@ func c13Gate(w *World, r *Report, up *ssa.Function) {
 		obA.Undecided("anchor", "metadata Update not found")
 		return
 	}
-	isWrite := func(in ssa.Instruction) bool {
+	isDirectWrite := func(in ssa.Instruction) bool {
 		c := plainCall(in)
 		if c == nil {
 			return false
 		}
 		n := CalleeName(c)
 		return n == "(*"+kvPath+".MapStore).Set" || n == "(*"+kvPath+".MapStore).Delete"
+	}
+	// a write step: the store call itself, or a call of a module helper that performs it
+	writeHelpers := map[ssa.Instruction][]*ssa.Function{}
+	eachInstr(up, func(in ssa.Instruction) {
+		if isDirectWrite(in) {
+			return
+		}
+		for _, f := range stepFuncs(in, 0, map[*ssa.Function]bool{}) {
+			has := false
+			eachInstr(f, func(x ssa.Instruction) {
+				if isDirectWrite(x) {
+					has = true
+				}
+			})
+			if has {
+				writeHelpers[in] = append(writeHelpers[in], f)
+			}
+		}
+	})
+	isWrite := func(in ssa.Instruction) bool {
+		return isDirectWrite(in) || len(writeHelpers[in]) > 0
 	}
 	var get ssa.Value
 	eachInstr(up, func(in ssa.Instruction) {
@@ -77,12 +100,20 @@ func c13Gate(w *World, r *Report, up *ssa.Function) {
 	}
 	ctx := &ExprCtx{Alias: map[ssa.Value]string{get: "get"}}
 	nw := 0
-	eachInstr(up, func(in ssa.Instruction) {
-		if isWrite(in) {
-			nw++
-			obA.Site(in.Pos(), "map write "+shortName(CalleeName(plainCall(in))))
+	countWrites := func(f *ssa.Function) {
+		eachInstr(f, func(in ssa.Instruction) {
+			if isDirectWrite(in) {
+				nw++
+				obA.Site(in.Pos(), "map write "+shortName(CalleeName(plainCall(in)))+" in "+FnName(f))
+			}
+		})
+	}
+	countWrites(up)
+	for _, fs := range writeHelpers {
+		for _, f := range fs {
+			countWrites(f)
 		}
-	})
+	}
 	if nw < 2 {
 		obA.Violate("writes-missing", up.Pos(), "Update no longer has both a Set and a Delete")
 	}
@@ -167,9 +198,65 @@ func c13Gate(w *World, r *Report, up *ssa.Function) {
 	if nm == 0 {
 		obA.Violate("no-mismatch-edge", up.Pos(), "Update has no version comparison")
 	}
-	obA.NeedFloor(3)
+	// every entry of the batch is processed and gets a result: no successful exit from inside the
+	// loop, and no way back to the loop head without a result having been stored
+	if h != nil {
+		isResult := func(x ssa.Instruction) bool {
+			st, ok := x.(*ssa.Store)
+			if !ok {
+				return false
+			}
+			if typeIs(st.Val.Type(), smPath, "Result") {
+				return true
+			}
+			fa, ok := st.Addr.(*ssa.FieldAddr)
+			return ok && typeIs(fa.X.Type(), smPath, "Result")
+		}
+		for b := range body {
+			if b == h {
+				continue
+			}
+			for k, sblk := range b.Succs {
+				if body[sblk] {
+					continue
+				}
+				_ = k
+				for _, in := range (&Walk{}).ReachableInstrs(Loc{sblk, 0}) {
+					if ret, ok := in.(*ssa.Return); ok && !isErrorReturn(ret) {
+						obA.Violate("batch-cut-short", blockPos(sblk), "the loop over the entries of an apply call can be left with success from inside an iteration: later entries of the batch are skipped without result, and replicas that batch differently diverge")
+					}
+				}
+			}
+		}
+		for _, sblk := range h.Succs {
+			if !body[sblk] {
+				continue
+			}
+			if p := (&Walk{Barrier: isResult, Target: func(x ssa.Instruction) bool { return x.Block() == h }, EdgeOK: func(b *ssa.BasicBlock, k int) bool { return body[b.Succs[k]] }}).Find(Loc{sblk, 0}); p != nil {
+				obA.Violate("entry-without-result", blockPos(sblk), "an entry can be passed over without a result being stored for it", w.PathString(p)...)
+			}
+		}
+		obA.Site(blockPos(h), "loop over the entries of an apply call")
+	}
+	obA.NeedFloor(4)
 	// version = entry index
 	nset := 0
+	// verFromIndex: the place (field address chain) read by `ver` was stored from the entry's index
+	// on every path from the start of the iteration to `at`
+	verStoredBefore := func(wantPlace string, at ssa.Instruction) bool {
+		isVerStore := func(x ssa.Instruction) bool {
+			st, ok := x.(*ssa.Store)
+			if !ok {
+				return false
+			}
+			f2, ok := st.Addr.(*ssa.FieldAddr)
+			if !ok || fieldAddrName(f2) != "Ver" || ctx.place(f2) != wantPlace {
+				return false
+			}
+			return isFieldReadOf(st.Val, smPath, "Entry", "Index") || strings.HasSuffix(ctx.Expr(st.Val), ".Index")
+		}
+		return (&Walk{Barrier: isVerStore, Target: func(x ssa.Instruction) bool { return x == at }}).Find(start) == nil
+	}
 	eachInstr(up, func(in ssa.Instruction) {
 		c := plainCall(in)
 		if c == nil || CalleeName(c) != "(*"+kvPath+".MapStore).Set" {
@@ -182,21 +269,7 @@ func c13Gate(w *World, r *Report, up *ssa.Function) {
 		// `update.KVPair.Ver` must have been stored from ent.Index on every path
 		okv := false
 		if t, f, ok := fieldRead(ver); ok && f == "Ver" && t != nil {
-			u := ver.(*ssa.UnOp)
-			fa := u.X.(*ssa.FieldAddr)
-			isVerStore := func(x ssa.Instruction) bool {
-				st, ok := x.(*ssa.Store)
-				if !ok {
-					return false
-				}
-				f2, ok := st.Addr.(*ssa.FieldAddr)
-				if !ok || fieldAddrName(f2) != "Ver" || ctx.place(f2) != ctx.place(fa) {
-					return false
-				}
-				return isFieldReadOf(st.Val, smPath, "Entry", "Index") || strings.HasSuffix(ctx.Expr(st.Val), ".Index")
-			}
-			p := (&Walk{Barrier: isVerStore, Target: func(x ssa.Instruction) bool { return x == in }, EdgeOK: func(b *ssa.BasicBlock, k int) bool { return true }}).Find(start)
-			okv = p == nil
+			okv = verStoredBefore(ctx.place(ver.(*ssa.UnOp).X.(*ssa.FieldAddr)), in)
 		}
 		if isFieldReadOf(ver, smPath, "Entry", "Index") {
 			okv = true
@@ -205,6 +278,37 @@ func c13Gate(w *World, r *Report, up *ssa.Function) {
 			obB.Violate("version-source", in.Pos(), "a pair is stored with version `"+e+"`, which is not (on every path) the index of the entry being applied")
 		}
 	})
+	// Set inside a helper Update calls: the version is a field of a (struct) parameter; at the call
+	// site that field of the argument must have been stored from the entry's index
+	for cs, fs := range writeHelpers {
+		cc := plainCall(cs)
+		for _, f := range fs {
+			eachInstr(f, func(in ssa.Instruction) {
+				c := plainCall(in)
+				if c == nil || CalleeName(c) != "(*"+kvPath+".MapStore).Set" {
+					return
+				}
+				nset++
+				e := Expr(c.Args[3])
+				obB.Site(in.Pos(), "Set version argument "+e+" in "+FnName(f))
+				okv := false
+				if StaticCallee(cc) == f && strings.HasPrefix(e, "$") && strings.Contains(e, ".") {
+					idx, _ := strconv.Atoi(e[1:strings.Index(e, ".")])
+					path := e[strings.Index(e, "."):]
+					if idx < len(cc.Args) {
+						if u, ok := cc.Args[idx].(*ssa.UnOp); ok {
+							okv = verStoredBefore(ctx.place(u.X)+path, cs)
+						} else {
+							okv = verStoredBefore(strings.TrimPrefix(ctx.Expr(cc.Args[idx]), "&")+path, cs)
+						}
+					}
+				}
+				if !okv {
+					obB.Violate("version-source", in.Pos(), "a pair is stored with version `"+e+"` (in "+FnName(f)+"), which is not (on every path) the index of the entry being applied")
+				}
+			})
+		}
+	}
 	if nset == 0 {
 		obB.Undecided("shape", "no Set in Update")
 	}
@@ -483,6 +587,128 @@ func c13Locks(w *World, r *Report) {
 		})
 		if !hasDefer {
 			ob.Violate("no-deferred-unlock@"+name, fn.Pos(), name+" does not release the mutex through a deferred unlock")
+		}
+	}
+	ob.NeedFloor(7)
+}
+
+// c13Listings: C13.g — lookups are reads, and the two directory listings agree on how a key
+// qualifies (a contradiction rule between siblings: it needs no knowledge of what the listing
+// should return, only that List and ListDir decide membership the same way).
+func c13Listings(w *World, r *Report) {
+	ob := r.Ob("C13.g", "g-lookups-read-and-agree", "no lookup method of the map store (Get, Exists, GetAll, GetAllValues, List, ListDir) writes the store's map; if one of the two directory listings admits a key into its result only over the true edge of the component-wise path-prefix helper (or whole-key equality with the query), so does the other", "a lookup that writes changes what later lookups return; a listing that trusts a string prefix where its sibling compares path components reports entries of a sibling directory whose name merely starts with the queried name")
+	ms := w.NamedType("storage/kv", "MapStore")
+	if ms == nil {
+		ob.Undecided("anchor", "MapStore not found")
+		return
+	}
+	pt := types.NewPointer(ms)
+	for _, m := range []string{"Get", "Exists", "GetAll", "GetAllValues", "List", "ListDir"} {
+		fn := w.MethodOf(pt, m)
+		if fn == nil {
+			ob.Undecided("anchor/"+m, "MapStore."+m+" not found")
+			continue
+		}
+		ob.Site(fn.Pos(), "lookup method MapStore."+m)
+		for _, f := range withClosures(fn) {
+			eachInstr(f, func(in ssa.Instruction) {
+				var target ssa.Value
+				switch x := in.(type) {
+				case *ssa.MapUpdate:
+					target = x.Map
+				case *ssa.Store:
+					if fa, ok := x.Addr.(*ssa.FieldAddr); ok && types.Identical(deref(fa.X.Type()), ms) {
+						ob.Violate("lookup-writes-store@"+m, in.Pos(), "the lookup MapStore."+m+" assigns the store's field "+fieldAddrName(fa))
+					}
+					return
+				default:
+					if c := callOf(in); c != nil && (CalleeName(c) == "builtin.delete" || CalleeName(c) == "builtin.clear") {
+						target = c.Args[0]
+					}
+				}
+				if target == nil {
+					return
+				}
+				if t, f, ok := fieldRead(target); ok && f == "m" && types.Identical(deref(t), ms) {
+					ob.Violate("lookup-writes-store@"+m, in.Pos(), "the lookup MapStore."+m+" modifies the store's map")
+				}
+			})
+		}
+	}
+	// sibling agreement of the listings
+	isTermsHelper := func(c *ssa.CallCommon) bool {
+		cal := StaticCallee(c)
+		if cal == nil || cal.Pkg == nil || cal.Pkg.Pkg.Path() != kvPath || len(cal.Params) != 2 || cal.Signature.Results().Len() != 1 {
+			return false
+		}
+		for _, p := range cal.Params {
+			s, ok := p.Type().Underlying().(*types.Slice)
+			if !ok {
+				return false
+			}
+			if b, ok := s.Elem().Underlying().(*types.Basic); !ok || b.Kind() != types.String {
+				return false
+			}
+		}
+		b, ok := cal.Signature.Results().At(0).Type().Underlying().(*types.Basic)
+		return ok && b.Kind() == types.Bool
+	}
+	type verdict struct {
+		guarded, unguarded []ssa.Instruction
+	}
+	res := map[string]*verdict{}
+	for _, m := range []string{"List", "ListDir"} {
+		fn := w.MethodOf(pt, m)
+		if fn == nil {
+			continue
+		}
+		v := &verdict{}
+		res[m] = v
+		// guard edges: true edge of the terms helper, or of whole-key equality with the query ($1)
+		ctx := &ExprCtx{}
+		guardEdge := func(b *ssa.BasicBlock, k int) bool {
+			iff, ok := b.Instrs[len(b.Instrs)-1].(*ssa.If)
+			if !ok {
+				return false
+			}
+			if call, ok := iff.Cond.(*ssa.Call); ok && isTermsHelper(&call.Call) && k == 0 {
+				return true
+			}
+			for _, l := range ctx.EdgeLits(b, k) {
+				if l.Kind == "eq" && !l.Neg && (l.A == "$1" || l.B == "$1") && (strings.HasSuffix(l.A, ".Key") || strings.HasSuffix(l.B, ".Key")) {
+					return true
+				}
+			}
+			return false
+		}
+		eachInstr(fn, func(in ssa.Instruction) {
+			mu, ok := in.(*ssa.MapUpdate)
+			if !ok {
+				return
+			}
+			if _, isMake := mu.Map.(*ssa.MakeMap); !isMake {
+				return
+			}
+			wk := &Walk{Target: func(x ssa.Instruction) bool { return x == in }, EdgeOK: func(b *ssa.BasicBlock, k int) bool { return !guardEdge(b, k) }}
+			if wk.Find(entry(fn)) == nil {
+				v.guarded = append(v.guarded, in)
+			} else {
+				v.unguarded = append(v.unguarded, in)
+			}
+		})
+		ob.SiteS("MapStore." + m + ": " + itoa(len(v.guarded)) + " result insertion(s) behind the component-wise prefix test, " + itoa(len(v.unguarded)) + " not")
+	}
+	if l, d := res["List"], res["ListDir"]; l != nil && d != nil {
+		for _, pair := range []struct {
+			name  string
+			a, b  *verdict
+			other string
+		}{{"List", l, d, "ListDir"}, {"ListDir", d, l, "List"}} {
+			if len(pair.b.guarded) > 0 && len(pair.b.unguarded) == 0 {
+				for _, in := range pair.a.unguarded {
+					ob.Violate("listing-disagrees@"+pair.name, in.Pos(), "MapStore."+pair.name+" admits a key into its result without the component-wise path-prefix test that MapStore."+pair.other+" applies: keys of a sibling directory whose name starts with the queried one are listed")
+				}
+			}
 		}
 	}
 	ob.NeedFloor(7)
